@@ -1,5 +1,6 @@
 import IpamVerif.System
 import IpamVerif.Props.C17
+import IpamVerif.Safety
 /-!
 # C06 — a ClusterCIDR is released only when no node depends on it, then never used
 
@@ -239,5 +240,17 @@ theorem delete_write_removes_only_own_finalizer (s : Sys) (o : CCObj) (w : WOut)
       subst hx
       exact ⟨rfl, rfl⟩
   · cases hx
+
+/-- **on the fragment of `Safety.lean`** (ClusterCIDRs with disjoint ranges, no restart, no lost node writes …):
+whatever a ClusterCIDR work item does — in particular when it unmaps the ClusterCIDR and removes the finalizer —
+every node that exists, is not being deleted and holds pod CIDRs is afterwards still associated with a mapped
+ClusterCIDR in whose pools exactly those CIDRs are in use.  So a ClusterCIDR is only ever released when no
+existing node depends on it for the reservation of its pod CIDRs. -/
+theorem cc_item_keeps_every_holder_reserved (s : Sys) (hs : Safety.Inv s) (name : String) (w : WOut)
+    (hf : Safety.Frag s (.procCC name w)) :
+    ∀ y ∈ (step s (.procCC name w)).1.api.nodes, y.deleting = false → y.cidrs ≠ [] →
+      ∃ i, Safety.Claims (step s (.procCC name w)).1.alloc y.name i ∧
+        ∀ cd ∈ y.cidrs, Safety.UsedAt (step s (.procCC name w)).1.alloc i cd :=
+  fun y hy hd h0 => (Safety.inv_step hs _ hf).held y (List.mem_append_left _ hy) h0 (Or.inl hd)
 
 end Ipam.C06
